@@ -137,14 +137,21 @@ def parseNRule (s : String) : Option NRule :=
     let p ← p.toInt?
     let lim ← lim.toInt?
     let inc ← inc.toInt?
-    let mk ← optNat? mk
-    pure { name := n, prio := p, noLoop := nl == "1", ck := ck == "1", limit := lim, ak := ak == "1", inc := inc, marks := mk }
+    let (mk, mv) ← (match mk.splitOn "=" with
+      | [k] => (optNat? k).map (fun k => (k, 0))
+      | [k, v] => do pure (some (← k.toNat?), ← v.toNat?)
+      | _ => none)
+    pure { name := n, prio := p, noLoop := nl == "1", ck := ck == "1", limit := lim, ak := ak == "1", inc := inc, marks := mk, mval := mv }
   | _ => none
 
 def parseMOp (s : String) : Option MOp :=
   if s = "F" then some .fire
   else if s = "Z" then some .reset
-  else if s.startsWith "k" then (s.drop 1).toString.toNat?.map .marker
+  else if s.startsWith "k" then
+    match (s.drop 1).toString.splitOn "=" with
+    | [n] => n.toNat?.map (fun n => .marker n 0)
+    | [n, v] => do pure (.marker (← n.toNat?) (← v.toNat?))
+    | _ => none
   else if s.startsWith "s" then
     match (s.drop 1).toString.splitOn ":" with
     | [a, b] => do pure (.set (← a.toInt?) (← b.toInt?))
@@ -373,17 +380,23 @@ def oracleLine (line : String) : String :=
           | some res =>
             let isNoLoop := nameNoLoop rs
             let bound := if kind = "U" then ulBound else typedBound
-            if mhistOk isNoLoop (bound * rs.length) [] mops res then
+            let fv := markerFired (kind == "T")
+            let clr := clearedBy fv rs
+            let mvals := (mops.filterMap (fun o => match o with | .marker _ v => some v | _ => none))
+              ++ (rs.filterMap (fun r => r.marks.map (fun _ => r.mval)))
+            if mhistOk isNoLoop clr fv (bound * rs.length) [] mops res then
               let fires := res.filterMap (fun r => match r with | .fired ns _ _ => some ns | _ => none)
               let all := fires.foldl (· ++ ·) []
               let dupNoLoop := rs.any (fun r => r.noLoop && (rs.filter (fun q => q.name == r.name)).length ≥ 2)
               joinSp (["ok", "engine_M" ++ kind, s!"fire_calls_{fires.length}"]
                 ++ (if dupNoLoop then ["dup_no_loop_name"] else [])
                 ++ (if rs.any (fun r => r.marks.isSome) then ["marker_in_cycle"] else [])
+                ++ (if mvals.any (fun v => v != 0 && fv v) then ["marker_value_read_fired"] else [])
+                ++ (if mvals.any (fun v => !fv v) then ["marker_value_not_fired"] else [])
                 ++ (if all.any isNoLoop then ["no_loop_fired"] else [])
                 ++ (if mops.any (· == .reset) then ["reset"] else [])
                 ++ (if all.length > 0 then ["nontrivial"] else []))
-            else s!"fail {mhistBad ("M" ++ kind) isNoLoop (bound * rs.length) 0 [] mops res}"
+            else s!"fail {mhistBad ("M" ++ kind) isNoLoop clr fv (bound * rs.length) 0 [] mops res}"
           | none => "fail unparsable-observation"
         | _ => if o.trimAscii.toString.startsWith "panic" then s!"fail fire_all_returns:panic:M{kind}" else "fail unparsable-observation"
       | _, _ => "bad-input"
